@@ -6,8 +6,13 @@
    parsing functions; it uses only the character classes, the table of references (decode_ref), Name (name_ok), the
    checks on the declaration (decl_ok) and the merging of adjacent character data (merge_txt) of JxXmlSpec.
    Proved: whatever is accepted is such a text of the returned tree (xml_cps_sound); every such text is accepted with
-   that tree (xml_cps_complete); the trees are well-formed DOMs (xrenders_wf).  The last section lists the two places
-   where the subset is wider than the recommendation. *)
+   that tree (xml_cps_complete); the trees are well-formed DOMs (xrenders_wf).
+   Two places were tightened to the letter of the recommendation (an earlier version of the parser was wider there):
+   outside the document element the text consists of literal white space, comments and processing instructions only
+   (Misc, production 27) - the relation xtext carries the number of open elements, and character data, references and
+   CDATA sections (an empty one too) need an open element; the values of the pseudo-attributes of the XML declaration
+   are literal (declval_spells: the raw text between the quotes, no references).  The last section shows, by example,
+   that the texts which used to be accepted at these places are rejected now. *)
 From BS Require Import Base UtfSpec UtfModel JxJsonSpec JxJsonProofs JxXmlSpec JxXmlProofs.
 From Coq Require Import ZifyBool ZifyN ZifyNat.
 Local Open Scope N_scope.
@@ -40,13 +45,25 @@ Inductive attval_spells (q : N) : list N -> list N -> Prop :=
 | av_ws c v body : is_xws c = true -> c <> q -> attval_spells q v body -> attval_spells q (32 :: v) (c :: body)
 | av_ref c p v body : ref_spells c p -> attval_spells q v body -> attval_spells q (c :: v) (p ++ body).
 
-(* (S Attribute)* S?  with  Attribute ::= Name Eq AttValue,  Eq ::= S? '=' S?  (productions 25, 40, 41) *)
-Inductive attrs_spell : list (list N * list N) -> list N -> Prop :=
-| as_nil w : ws_only w = true -> attrs_spell [] w
+(* the value of a pseudo-attribute of the XML declaration between quotes q (productions 24, 26, 32, 80, 81): the
+   literal text between the quotes, which does not contain the quote; nothing is expanded or normalised *)
+Inductive declval_spells (q : N) : list N -> list N -> Prop :=
+| dv_lit v : ~ In q v -> declval_spells q v v.
+
+(* (S Name Eq Value)* S?  with  Eq ::= S? '=' S?  (production 25) and the value between either quote, spelled as V
+   says *)
+Inductive attrs_spell_with (V : N -> list N -> list N -> Prop) : list (list N * list N) -> list N -> Prop :=
+| as_nil w : ws_only w = true -> attrs_spell_with V [] w
 | as_cons n v a w1 w2 w3 q vb body :
     w1 <> [] -> ws_only w1 = true -> name_ok n = true -> ws_only w2 = true -> ws_only w3 = true ->
-    q = 34 \/ q = 39 -> attval_spells q v vb -> attrs_spell a body ->
-    attrs_spell ((n, v) :: a) (w1 ++ n ++ w2 ++ [61] ++ w3 ++ [q] ++ vb ++ [q] ++ body).
+    q = 34 \/ q = 39 -> V q v vb -> attrs_spell_with V a body ->
+    attrs_spell_with V ((n, v) :: a) (w1 ++ n ++ w2 ++ [61] ++ w3 ++ [q] ++ vb ++ [q] ++ body).
+
+(* (S Attribute)* S?  with  Attribute ::= Name Eq AttValue  (productions 40, 41) *)
+Definition attrs_spell := attrs_spell_with attval_spells.
+
+(* the pseudo-attributes of the XML declaration: (S Name Eq literal value)* S? *)
+Definition declattrs_spell := attrs_spell_with declval_spells.
 
 (* t is closed by the delimiter d: in t followed by d, no occurrence of d begins inside t.  For the delimiters of
    CDATA sections and processing instructions this says that t does not contain d; for the two hyphens that close
@@ -65,39 +82,43 @@ Definition markup_or_end (s : list N) : Prop := match s with [] => True | c :: _
 Definition pi_data (t : list N) : Prop :=
   t = [] \/ exists w t', t = w :: t' /\ is_xws w = true /\ forallb xml_char t' = true /\ free_of [63; 62] t' = true.
 
-(* a text and the tokens it consists of *)
-Inductive xtext : list N -> list xtok -> Prop :=
-| xt_nil : xtext [] []
+(* a text, read with d elements open, and the tokens it consists of.  Outside the document element (d = 0) there is
+   Misc only (production 27): literal white space (production 3, taken as a whole: what follows it is markup or the
+   end), comments and processing instructions; character data, references and CDATA sections need an open element. *)
+Inductive xtext : nat -> list N -> list xtok -> Prop :=
+| xt_nil d : xtext d [] []
+(* S ::= (#x20 | #x9 | #xD | #xA)+  outside the document element: no token *)
+| xt_ws w s ts : w <> [] -> ws_only w = true -> markup_or_end s -> xtext 0 s ts -> xtext 0 (w ++ s) ts
 (* STag ::= '<' Name (S Attribute)* S? '>'   (WFC: Unique Att Spec) *)
-| xt_open n a ab s ts : name_ok n = true -> attrs_spell a ab -> keys_distinct a = true -> xtext s ts ->
-    xtext (60 :: n ++ ab ++ 62 :: s) (XOpen n a :: ts)
+| xt_open d n a ab s ts : name_ok n = true -> attrs_spell a ab -> keys_distinct a = true -> xtext (S d) s ts ->
+    xtext d (60 :: n ++ ab ++ 62 :: s) (XOpen n a :: ts)
 (* EmptyElemTag ::= '<' Name (S Attribute)* S? '/>' *)
-| xt_empty n a ab s ts : name_ok n = true -> attrs_spell a ab -> keys_distinct a = true -> xtext s ts ->
-    xtext (60 :: n ++ ab ++ 47 :: 62 :: s) (XEmpty n a :: ts)
+| xt_empty d n a ab s ts : name_ok n = true -> attrs_spell a ab -> keys_distinct a = true -> xtext d s ts ->
+    xtext d (60 :: n ++ ab ++ 47 :: 62 :: s) (XEmpty n a :: ts)
 (* ETag ::= '</' Name S? '>' *)
-| xt_close n w s ts : name_ok n = true -> ws_only w = true -> xtext s ts ->
-    xtext (60 :: 47 :: n ++ w ++ 62 :: s) (XClose n :: ts)
+| xt_close d n w s ts : name_ok n = true -> ws_only w = true -> xtext d s ts ->
+    xtext (S d) (60 :: 47 :: n ++ w ++ 62 :: s) (XClose n :: ts)
 (* CharData and References, up to the next markup *)
-| xt_chars v body s ts : chardata_spells v body -> v <> [] -> markup_or_end s -> xtext s ts ->
-    xtext (body ++ s) (XTxt v :: ts)
+| xt_chars d v body s ts : chardata_spells v body -> v <> [] -> markup_or_end s -> xtext (S d) s ts ->
+    xtext (S d) (body ++ s) (XTxt v :: ts)
 (* CDSect ::= '<![CDATA[' CData ']]>' *)
-| xt_cdata t s ts : t <> [] -> forallb xml_char t = true -> free_of [93; 93; 62] t = true -> xtext s ts ->
-    xtext ([60; 33; 91; 67; 68; 65; 84; 65; 91] ++ t ++ [93; 93; 62] ++ s) (XTxt t :: ts)
-| xt_cdata_empty s ts : xtext s ts ->
-    xtext ([60; 33; 91; 67; 68; 65; 84; 65; 91; 93; 93; 62] ++ s) ts
+| xt_cdata d t s ts : t <> [] -> forallb xml_char t = true -> free_of [93; 93; 62] t = true -> xtext (S d) s ts ->
+    xtext (S d) ([60; 33; 91; 67; 68; 65; 84; 65; 91] ++ t ++ [93; 93; 62] ++ s) (XTxt t :: ts)
+| xt_cdata_empty d s ts : xtext (S d) s ts ->
+    xtext (S d) ([60; 33; 91; 67; 68; 65; 84; 65; 91; 93; 93; 62] ++ s) ts
 (* Comment ::= '<!--' ((Char - '-') | ('-' (Char - '-')))* '-->' *)
-| xt_comment t s ts : forallb xml_char t = true -> free_of [45; 45] t = true -> xtext s ts ->
-    xtext ([60; 33; 45; 45] ++ t ++ [45; 45; 62] ++ s) ts
+| xt_comment d t s ts : forallb xml_char t = true -> free_of [45; 45] t = true -> xtext d s ts ->
+    xtext d ([60; 33; 45; 45] ++ t ++ [45; 45; 62] ++ s) ts
 (* PI ::= '<?' PITarget (S Chars)? '?>'  where Chars does not contain '?>' and PITarget is any Name but xml (in any
    case of the letters) *)
-| xt_pi n t s ts : name_ok n = true -> is_xml_target n = false -> pi_data t -> xtext s ts ->
-    xtext (60 :: 63 :: n ++ t ++ 63 :: 62 :: s) ts.
+| xt_pi d n t s ts : name_ok n = true -> is_xml_target n = false -> pi_data t -> xtext d s ts ->
+    xtext d (60 :: 63 :: n ++ t ++ 63 :: 62 :: s) ts.
 
 (* XMLDecl ::= '<?xml' VersionInfo EncodingDecl? SDDecl? S? '?>'  (productions 23-26, 32, 80, 81): the
-   pseudo-attributes are spelled like attributes, and decl_ok demands version, encoding, standalone in this order
-   with their legal values *)
+   pseudo-attributes with their literal values, and decl_ok demands version, encoding, standalone in this order
+   with their legal values (VersionNum, EncName, yes or no) *)
 Inductive xmldecl_spells : list N -> Prop :=
-| xd_decl a ab : attrs_spell a ab -> decl_ok a = true -> xmldecl_spells ([60; 63; 120; 109; 108] ++ ab ++ [63; 62]).
+| xd_decl a ab : declattrs_spell a ab -> decl_ok a = true -> xmldecl_spells ([60; 63; 120; 109; 108] ++ ab ++ [63; 62]).
 
 (* element ::= EmptyElemTag | STag content ETag  (production 39; WFC: Element Type Match) *)
 Inductive xtoks : xnode -> list xtok -> Prop :=
@@ -108,16 +129,13 @@ with xtoks_list : list xnode -> list xtok -> Prop :=
 | xkl_nil : xtoks_list [] []
 | xkl_cons x ch t l : xtoks x t -> xtoks_list ch l -> xtoks_list (x :: ch) (t ++ l).
 
-(* what may stand before and after the root element, as tokens: nothing, or character data that is white space *)
-Definition misc_ws (l : list xtok) : Prop := l = [] \/ exists w, l = [XTxt w] /\ ws_only w = true.
-
-(* document ::= prolog element Misc*  (production 1): an optional declaration, then a text whose tokens, adjacent
-   character data merged, are those of the root element with at most white space around it *)
+(* document ::= prolog element Misc*  (production 1): an optional declaration, then a text (no element open at its
+   beginning) whose tokens, adjacent character data merged, are those of the root element *)
 Definition xrenders (s : list N) (x : xnode) : Prop :=
-  exists decl body ts pre toks post,
+  exists decl body ts toks,
     s = decl ++ body /\ (decl = [] \/ xmldecl_spells decl) /\
-    xtext body ts /\
-    merge_txt ts = pre ++ toks ++ post /\ misc_ws pre /\ misc_ws post /\
+    xtext 0 body ts /\
+    merge_txt ts = toks /\
     xtoks x toks /\ is_text x = false.
 
 (* ================================================================== small facts *)
@@ -155,6 +173,24 @@ Lemma skip_ws_sound s : exists w, s = w ++ skip_ws s /\ ws_only w = true.
 Proof.
   unfold skip_ws. destruct (span is_xws s) as [w r] eqn:E. destruct (span_split _ _ _ _ E) as [-> Hw].
   exists w. split; [reflexivity | exact Hw].
+Qed.
+
+Lemma span_stop p s : forall a r, span p s = (a, r) -> stopsp p r.
+Proof.
+  induction s as [|c s IH]; intros a r H; cbn [span] in H.
+  - inversion H. exact I.
+  - destruct (p c) eqn:E.
+    + destruct (span p s) as [a' r'] eqn:Es. inversion H; subst. exact (IH a' r eq_refl).
+    + inversion H; subst. exact E.
+Qed.
+
+Lemma notin_forallb q v : forallb (fun c => negb (c =? q)) v = true <-> ~ In q v.
+Proof.
+  induction v as [|c v IH]; cbn [forallb In]; [split; [intros _ [] | reflexivity]|].
+  rewrite andb_true_iff, IH. split.
+  - intros [H1 H2] [E|E]; [subst c; rewrite N.eqb_refl in H1; discriminate | exact (H2 E)].
+  - intros H. split; [|intros E; apply H; right; exact E].
+    destruct (c =? q) eqn:E; [|reflexivity]. exfalso. apply H. left. apply N.eqb_eq. exact E.
 Qed.
 
 (* ================================================================== character data: the reader is sound *)
@@ -276,17 +312,29 @@ Definition end_text (e : tagend) : list N :=
 Definition end_fits (decl : bool) (e : tagend) : Prop :=
   match e with EndDecl => decl = true | _ => decl = false end.
 
+(* the values are read as attribute values in a tag and as literal text in the declaration *)
+Definition val_spells (decl : bool) : N -> list N -> list N -> Prop := if decl then declval_spells else attval_spells.
+
+Lemma lex_declval_sound q s v r : lex_declval q s = Some (v, r) -> s = v ++ q :: r /\ declval_spells q v v.
+Proof.
+  unfold lex_declval. destruct (span (fun c => negb (c =? q)) s) as [a r0] eqn:E.
+  destruct (span_split _ _ _ _ E) as [-> Ha]. apply span_stop in E.
+  destruct r0 as [|c r']; [discriminate|]. intros H. inversion H; subst. cbn in E. apply negb_false_iff, N.eqb_eq in E.
+  subst c. split; [reflexivity|]. apply dv_lit. apply notin_forallb. exact Ha.
+Qed.
+
 Lemma lex_attrs_sound f : forall decl s acc a e r,
   lex_attrs f decl s acc = Some (a, e, r) -> keys_distinct (rev acc) = true ->
-  exists l ab, a = rev acc ++ l /\ s = ab ++ end_text e ++ r /\ attrs_spell l ab /\ end_fits decl e /\ keys_distinct a = true.
+  exists l ab, a = rev acc ++ l /\ s = ab ++ end_text e ++ r /\ attrs_spell_with (val_spells decl) l ab /\
+               end_fits decl e /\ keys_distinct a = true.
 Proof.
   induction f as [|f IH]; intros decl s acc a e r H Hd; [discriminate|].
   cbn [lex_attrs] in H.
   destruct (span is_xws s) as [w s1] eqn:Es. destruct (span_split _ _ _ _ Es) as [Hs Hw]. clear Es. subst s.
   destruct s1 as [|c r0]; [discriminate|].
   assert (Done : forall e0, end_fits decl e0 -> c :: r0 = end_text e0 ++ r -> a = rev acc -> e = e0 ->
-            exists l ab, a = rev acc ++ l /\ w ++ c :: r0 = ab ++ end_text e ++ r /\ attrs_spell l ab /\
-                         end_fits decl e /\ keys_distinct a = true).
+            exists l ab, a = rev acc ++ l /\ w ++ c :: r0 = ab ++ end_text e ++ r /\
+                         attrs_spell_with (val_spells decl) l ab /\ end_fits decl e /\ keys_distinct a = true).
   { intros e0 Hf Ht Ha He. subst e a. exists [], w. rewrite app_nil_r, Ht.
     split; [reflexivity|]. split; [reflexivity|]. split; [apply as_nil; exact Hw|]. split; [exact Hf | exact Hd]. }
   destruct (negb decl && (c =? 62)) eqn:B1.
@@ -308,9 +356,13 @@ Proof.
   destruct (e1 =? 61) eqn:E61; [|discriminate]. apply N.eqb_eq in E61. subst e1.
   destruct (skip_ws_sound r2) as [w3 [E3 Hw3]]. destruct (skip_ws r2) as [|q r3]; [discriminate|].
   destruct ((q =? 34) || (q =? 39)) eqn:Eq; [|discriminate].
-  destruct (lex_attval q None [] r3) as [[v r4]|] eqn:Ev; [|discriminate].
-  destruct (lex_attval_sound q (length r3) r3 [] v r4 (le_n _) Ev) as [vb [v' [E4 [Ev' Hv]]]].
-  cbn [rev app] in Ev'. subst v'. clear Ev.
+  destruct (if decl then lex_declval q r3 else lex_attval q None [] r3) as [[v r4]|] eqn:Ev; [|discriminate].
+  assert (Hv : exists vb, r3 = vb ++ q :: r4 /\ val_spells decl q v vb).
+  { destruct decl; cbn [val_spells].
+    - destruct (lex_declval_sound _ _ _ _ Ev) as [E4 Hv]. exists v. split; assumption.
+    - destruct (lex_attval_sound q (length r3) r3 [] v r4 (le_n _) Ev) as [vb [v' [E4 [Ev' Hv]]]].
+      cbn [rev app] in Ev'. subst v'. exists vb. split; assumption. }
+  destruct Hv as [vb [E4 Hv]]. clear Ev.
   destruct (has_key n acc) eqn:Hk; [discriminate|].
   assert (Hd' : keys_distinct (rev ((n, v) :: acc)) = true).
   { cbn [rev]. apply keys_distinct_snoc; [exact Hd|]. rewrite has_key_rev. exact Hk. }
@@ -348,9 +400,16 @@ Qed.
 Lemma xlcons_ok t r ts : xlcons t r = XLOk ts -> exists ts', r = XLOk ts' /\ ts = t :: ts'.
 Proof. destruct r; cbn; intros H; try discriminate. inversion H. eexists; split; reflexivity. Qed.
 
-Lemma xlex_sound fuel : forall s ts, xlex fuel s = XLOk ts -> xtext s ts.
+(* outside the document element, what is not white space is markup *)
+Lemma xlex_misc_head f c r ts : xlex f 0 (c :: r) = XLOk ts -> is_xws c = false -> c = 60.
 Proof.
-  induction fuel as [|f IH]; intros s ts H; [discriminate|].
+  destruct f as [|f]; [discriminate|]. cbn [xlex]. destruct (c =? 60) eqn:E; [lia|].
+  cbn [span]. intros H Hw. rewrite Hw in H. discriminate.
+Qed.
+
+Lemma xlex_sound fuel : forall d s ts, xlex fuel d s = XLOk ts -> xtext d s ts.
+Proof.
+  induction fuel as [|f IH]; intros d s ts H; [discriminate|].
   cbn [xlex] in H. destruct s as [|c r]; [inversion H; constructor|].
   destruct (c =? 60) eqn:E60.
   - apply N.eqb_eq in E60. subst c. destruct r as [|c1 r1]; [discriminate|].
@@ -360,6 +419,7 @@ Proof.
       destruct (lex_name r1) as [[n r2]|] eqn:En; [|discriminate]. destruct (lex_name_sound _ _ _ En) as [En1 Hn].
       destruct (skip_ws_sound r2) as [w [Ew Hw]]. destruct (skip_ws r2) as [|e r3]; [discriminate|].
       destruct (e =? 62) eqn:E62; [|discriminate]. apply N.eqb_eq in E62. subst e.
+      destruct d as [|d']; [discriminate|].
       destruct (xlcons_ok _ _ _ H) as [ts' [H1 Hts]]. subst ts. rewrite En1, Ew.
       apply xt_close; [exact Hn | exact Hw | apply IH; exact H1]. }
     destruct (c1 =? 63) eqn:E63.
@@ -387,16 +447,16 @@ Proof.
         destruct (scan_until [45; 45] r2) as [[t [|e r3]]|] eqn:Es; try discriminate.
         destruct (e =? 62) eqn:E62; [|discriminate]. apply N.eqb_eq in E62. subst e.
         destruct (scan_until_sound _ _ _ _ Es) as [Es1 [Hx Hfr]]. rewrite Es1.
-        apply (xt_comment t r3 ts Hx Hfr). apply IH. exact H.
+        apply (xt_comment d t r3 ts Hx Hfr). apply IH. exact H.
       - (* CDATA section *)
         destruct (strip_prefix [91; 67; 68; 65; 84; 65; 91] r1) as [r2|] eqn:Ep2; [|discriminate].
-        apply strip_prefix_split in Ep2. subst r1.
+        apply strip_prefix_split in Ep2. subst r1. destruct d as [|d']; [discriminate|].
         destruct (scan_until [93; 93; 62] r2) as [[t r3]|] eqn:Es; [|discriminate].
         destruct (scan_until_sound _ _ _ _ Es) as [Es1 [Hx Hfr]]. rewrite Es1.
         destruct t as [|t0 t'].
-        + apply (xt_cdata_empty r3 ts). apply IH. exact H.
+        + apply (xt_cdata_empty d' r3 ts). apply IH. exact H.
         + destruct (xlcons_ok _ _ _ H) as [ts' [H1 Hts]]. subst ts.
-          apply (xt_cdata (t0 :: t') r3 ts'); [discriminate | exact Hx | exact Hfr | apply IH; exact H1]. }
+          apply (xt_cdata d' (t0 :: t') r3 ts'); [discriminate | exact Hx | exact Hfr | apply IH; exact H1]. }
     (* start tag, empty-element tag *)
     destruct (lex_name (c1 :: r1)) as [[n r2]|] eqn:En; [|discriminate]. destruct (lex_name_sound _ _ _ En) as [En1 Hn].
     destruct (lex_attrs f false r2 []) as [[[a e] r3]|] eqn:Ea; [|discriminate].
@@ -405,13 +465,19 @@ Proof.
     destruct e; [| |discriminate]; destruct (xlcons_ok _ _ _ H) as [ts' [H1 Hts]]; subst ts; cbn [end_text app].
     + apply xt_open; [exact Hn | exact Hsp | exact Hd | apply IH; exact H1].
     + apply xt_empty; [exact Hn | exact Hsp | exact Hd | apply IH; exact H1].
-  - (* character data *)
-    destruct (lex_text None [] (c :: r)) as [[t r']|] eqn:Et; [|discriminate].
-    destruct (xlcons_ok _ _ _ H) as [ts' [H1 Hts]]. subst ts.
-    destruct (lex_text_sound (length (c :: r)) _ _ _ _ (le_n _) Et) as [body [v' [Eb [Ev [Hsp Hm]]]]].
-    cbn [rev app] in Ev. subst v'. rewrite Eb.
-    apply xt_chars; [exact Hsp | | exact Hm | apply IH; exact H1].
-    intros ->. inversion Hsp; subst. cbn [app] in Eb. subst r'. cbn in Hm. lia.
+  - destruct d as [|d'].
+    + (* white space outside the document element *)
+      destruct (span is_xws (c :: r)) as [w r'] eqn:Es. destruct w as [|w0 w]; [discriminate|].
+      destruct (span_split _ _ _ _ Es) as [Ew Hw]. apply span_stop in Es. rewrite Ew.
+      apply xt_ws; [discriminate | exact Hw | | apply IH; exact H].
+      destruct r' as [|c' r'']; [exact I|]. exact (xlex_misc_head _ _ _ _ H Es).
+    + (* character data *)
+      destruct (lex_text None [] (c :: r)) as [[t r']|] eqn:Et; [|discriminate].
+      destruct (xlcons_ok _ _ _ H) as [ts' [H1 Hts]]. subst ts.
+      destruct (lex_text_sound (length (c :: r)) _ _ _ _ (le_n _) Et) as [body [v' [Eb [Ev [Hsp Hm]]]]].
+      cbn [rev app] in Ev. subst v'. rewrite Eb.
+      apply xt_chars; [exact Hsp | | exact Hm | apply IH; exact H1].
+      intros ->. inversion Hsp; subst. cbn [app] in Eb. subst r'. cbn in Hm. lia.
 Qed.
 
 (* ================================================================== the tree builder is sound *)
@@ -469,7 +535,7 @@ Proof.
     + destruct (lex_attrs (S (length (c :: r'))) true (c :: r') []) as [[[a e] r2]|] eqn:Ea; [|discriminate].
       destruct e; try discriminate. destruct (decl_ok a) eqn:Ed; [|discriminate]. intros H. inversion H; subst. clear H.
       destruct (lex_attrs_sound _ _ _ _ _ _ _ Ea eq_refl) as [l [ab [Hl [Hr [Hsp _]]]]].
-      cbn [rev app] in Hl. subst l. apply strip_prefix_split in Ep.
+      cbn [rev app] in Hl. subst l. apply strip_prefix_split in Ep. cbn [val_spells] in Hsp.
       exists ([60; 63; 120; 109; 108] ++ ab ++ [63; 62]). split; [|right; apply (xd_decl a ab Hsp Ed)].
       rewrite Ep, Hr. cbn [end_text]. rewrite <- !app_assoc. reflexivity.
     + intros H. inversion H; subst. exists []. split; [reflexivity | left; reflexivity].
@@ -478,32 +544,20 @@ Qed.
 
 (* ================================================================== accepted texts are texts of the subset *)
 
-Lemma drop_ws_split l : exists pre, l = pre ++ drop_ws_txt l /\ misc_ws pre.
-Proof.
-  destruct l as [|t r]; [exists []; split; [reflexivity | left; reflexivity]|].
-  destruct t as [n a|n a|n|s]; try (exists []; split; [reflexivity | left; reflexivity]).
-  cbn [drop_ws_txt]. destruct (ws_only s) eqn:E.
-  - exists [XTxt s]. split; [reflexivity|]. right. exists s. split; [reflexivity | exact E].
-  - exists []. split; [reflexivity | left; reflexivity].
-Qed.
-
 (* Every text the reference parser accepts is, after end-of-line normalisation, a text of the subset that denotes
    the tree the parser returns. *)
 Theorem xml_cps_sound : forall s0 x, xml_parse_cps s0 = XOk x -> xrenders (norm_eol s0) x.
 Proof.
   intros s0 x. unfold xml_parse_cps. cbv zeta.
   destruct (split_decl (norm_eol s0)) as [[d s1]|] eqn:Ed; [|discriminate].
-  destruct (xlex (S (length s1)) s1) as [ts| |] eqn:El; try discriminate.
-  destruct (xbuild (2 * length (drop_ws_txt (merge_txt ts)) + 2) (drop_ws_txt (merge_txt ts))) as [root rest| |] eqn:Eb;
-    try discriminate.
-  destruct (drop_ws_txt rest) as [|t0 r0] eqn:Er; [|discriminate]. intros H. inversion H; subst root. clear H.
+  destruct (xlex (S (length s1)) 0 s1) as [ts| |] eqn:El; try discriminate.
+  destruct (xbuild (2 * length (merge_txt ts) + 2) (merge_txt ts)) as [root [|t0 rest]| |] eqn:Eb; try discriminate.
+  intros H. inversion H; subst root. clear H.
   destruct (split_decl_sound _ _ _ Ed) as [decl [Es Hdecl]].
-  destruct (proj1 (xbuild_sound _) _ _ _ Eb) as [toks [Et [Hx Hel]]].
-  destruct (drop_ws_split (merge_txt ts)) as [pre [Epre Hpre]].
-  destruct (drop_ws_split rest) as [post [Epost Hpost]]. rewrite Er, app_nil_r in Epost. subst post.
-  exists decl, s1, ts, pre, toks, rest.
-  split; [exact Es|]. split; [exact Hdecl|]. split; [apply (xlex_sound _ _ _ El)|].
-  split; [rewrite Epre at 1; rewrite Et; reflexivity|]. repeat split; assumption.
+  destruct (proj1 (xbuild_sound _) _ _ _ Eb) as [toks [Et [Hx Hel]]]. rewrite app_nil_r in Et.
+  exists decl, s1, ts, toks.
+  split; [exact Es|]. split; [exact Hdecl|]. split; [apply (xlex_sound _ _ _ _ El)|].
+  split; [exact Et|]. split; assumption.
 Qed.
 
 (* ================================================================== the converse: every text of the subset is accepted *)
@@ -642,14 +696,21 @@ Proof.
   unfold has_key. cbn [existsb fst]. rewrite (list_eqb_sym n k), H1. cbn [orb]. apply IH. exact H2.
 Qed.
 
-Lemma attrs_spell_len a ab : attrs_spell a ab -> (length a <= length ab)%nat.
+Lemma lex_declval_complete q v rest : ~ In q v -> lex_declval q (v ++ q :: rest) = Some (v, rest).
+Proof.
+  intros H. unfold lex_declval. rewrite (span_app (fun c => negb (c =? q)) v (q :: rest)); [reflexivity | |].
+  - apply notin_forallb. exact H.
+  - cbn. rewrite N.eqb_refl. reflexivity.
+Qed.
+
+Lemma attrs_spell_len V a ab : attrs_spell_with V a ab -> (length a <= length ab)%nat.
 Proof.
   induction 1 as [w _|n v a w1 w2 w3 q vb body Hne _ _ _ _ _ _ _ IH]; [cbn; lia|].
   cbn [length]. repeat (rewrite app_length; cbn [length]). lia.
 Qed.
 
 (* an attribute list never begins with a name character *)
-Lemma attrs_spell_stop a ab c Z : attrs_spell a ab -> name_char c = false -> stopsp name_char (ab ++ c :: Z).
+Lemma attrs_spell_stop V a ab c Z : attrs_spell_with V a ab -> name_char c = false -> stopsp name_char (ab ++ c :: Z).
 Proof.
   intros H Hc. destruct H as [w Hw|n v a w1 w2 w3 q vb body Hne Hw1 _ _ _ _ _ _].
   - apply ws_stop; assumption.
@@ -670,11 +731,11 @@ Proof.
   rewrite Sp. destruct e; cbn in Hf; subst decl; reflexivity.
 Qed.
 
-Lemma lex_attrs_complete a ab : attrs_spell a ab -> forall f decl e acc rest,
+Lemma lex_attrs_complete decl a ab : attrs_spell_with (val_spells decl) a ab -> forall f e acc rest,
   end_fits decl e -> (length a < f)%nat -> keys_distinct (rev acc ++ a) = true ->
   lex_attrs f decl (ab ++ end_text e ++ rest) acc = Some (rev acc ++ a, e, rest).
 Proof.
-  induction 1 as [w Hw|n v a w1 w2 w3 q vb body Hne Hw1 Hn Hw2 Hw3 Hq Hv _ IH]; intros f decl e acc rest Hf Hl Hd.
+  induction 1 as [w Hw|n v a w1 w2 w3 q vb body Hne Hw1 Hn Hw2 Hw3 Hq Hv _ IH]; intros f e acc rest Hf Hl Hd.
   - destruct f as [|f]; [lia|]. rewrite app_nil_r. apply lex_attrs_end; assumption.
   - destruct f as [|f]; [lia|]. cbn [length] in Hl.
     destruct (name_ok_inv n Hn) as [c0 [n' [En [Hc0 Hn']]]]. pose proof (name_start_ge c0 Hc0) as Hge.
@@ -695,33 +756,38 @@ Proof.
     assert (Wq : is_xws q = false) by (unfold is_xws; lia).
     unfold Z2. rewrite (skip_ws_app w3 q Z3 Hw3 Wq).
     assert (Qq : ((q =? 34) || (q =? 39)) = true) by lia. rewrite Qq.
-    unfold Z3. rewrite (lex_attval_complete q v vb Hv Hq [] Z4). cbn [rev app].
+    unfold Z3.
+    assert (Lv : (if decl then lex_declval q (vb ++ q :: Z4) else lex_attval q None [] (vb ++ q :: Z4)) = Some (v, Z4)).
+    { destruct decl; cbn [val_spells] in Hv.
+      - destruct Hv as [v Hv]. apply lex_declval_complete. exact Hv.
+      - apply (lex_attval_complete q v vb Hv Hq [] Z4). }
+    rewrite Lv.
     assert (Hk : has_key n acc = false). { rewrite <- has_key_rev. exact (keys_distinct_mid _ _ _ _ Hd). }
     rewrite Hk. unfold Z4.
-    rewrite (IH f decl e ((n, v) :: acc) rest Hf ltac:(lia)).
+    rewrite (IH f e ((n, v) :: acc) rest Hf ltac:(lia)).
     + cbn [rev]. rewrite <- app_assoc. reflexivity.
     + cbn [rev]. rewrite <- app_assoc. exact Hd.
 Qed.
 
 (* ------------------------------------------------------------------ the lexer *)
 
-Lemma xlex_close_eq f r1 : xlex (S f) (60 :: 47 :: r1) =
+Lemma xlex_close_eq f d r1 : xlex (S f) (S d) (60 :: 47 :: r1) =
   match lex_name r1 with
   | Some (n, r2) => match skip_ws r2 with
-                    | e :: r3 => if e =? 62 then xlcons (XClose n) (xlex f r3) else XLErr
+                    | e :: r3 => if e =? 62 then xlcons (XClose n) (xlex f d r3) else XLErr
                     | [] => XLErr
                     end
   | None => XLErr
   end.
 Proof. reflexivity. Qed.
 
-Lemma xlex_pi_eq f r1 : xlex (S f) (60 :: 63 :: r1) =
+Lemma xlex_pi_eq f d r1 : xlex (S f) d (60 :: 63 :: r1) =
   match lex_name r1 with
   | Some (n, r2) =>
     if is_xml_target n then XLErr
     else match r2 with
          | c2 :: _ => if is_xws c2 || starts [63; 62] r2
-                      then match scan_until [63; 62] r2 with Some (_, r3) => xlex f r3 | None => XLErr end
+                      then match scan_until [63; 62] r2 with Some (_, r3) => xlex f d r3 | None => XLErr end
                       else XLErr
          | [] => XLErr
          end
@@ -729,27 +795,27 @@ Lemma xlex_pi_eq f r1 : xlex (S f) (60 :: 63 :: r1) =
   end.
 Proof. reflexivity. Qed.
 
-Lemma xlex_comment_eq f r2 : xlex (S f) ([60; 33; 45; 45] ++ r2) =
+Lemma xlex_comment_eq f d r2 : xlex (S f) d ([60; 33; 45; 45] ++ r2) =
   match scan_until [45; 45] r2 with
-  | Some (_, e :: r3) => if e =? 62 then xlex f r3 else XLErr
+  | Some (_, e :: r3) => if e =? 62 then xlex f d r3 else XLErr
   | _ => XLErr
   end.
 Proof. reflexivity. Qed.
 
-Lemma xlex_cdata_eq f r2 : xlex (S f) ([60; 33; 91; 67; 68; 65; 84; 65; 91] ++ r2) =
+Lemma xlex_cdata_eq f d r2 : xlex (S f) (S d) ([60; 33; 91; 67; 68; 65; 84; 65; 91] ++ r2) =
   match scan_until [93; 93; 62] r2 with
-  | Some ([], r3) => xlex f r3
-  | Some (t, r3) => xlcons (XTxt t) (xlex f r3)
+  | Some ([], r3) => xlex f (S d) r3
+  | Some (t, r3) => xlcons (XTxt t) (xlex f (S d) r3)
   | None => XLErr
   end.
 Proof. reflexivity. Qed.
 
-Lemma xlex_tag_eq f c1 r1 : name_start c1 = true -> xlex (S f) (60 :: c1 :: r1) =
+Lemma xlex_tag_eq f d c1 r1 : name_start c1 = true -> xlex (S f) d (60 :: c1 :: r1) =
   match lex_name (c1 :: r1) with
   | Some (n, r2) =>
     match lex_attrs f false r2 [] with
-    | Some (a, EndTag, r3) => xlcons (XOpen n a) (xlex f r3)
-    | Some (a, EndEmpty, r3) => xlcons (XEmpty n a) (xlex f r3)
+    | Some (a, EndTag, r3) => xlcons (XOpen n a) (xlex f (S d) r3)
+    | Some (a, EndEmpty, r3) => xlcons (XEmpty n a) (xlex f d r3)
     | _ => XLErr
     end
   | None => XLErr
@@ -760,11 +826,15 @@ Proof.
   assert (E33 : (c1 =? 33) = false) by lia. rewrite E47, E63, E33. reflexivity.
 Qed.
 
-Lemma xlex_text_eq f c r : (c =? 60) = false -> xlex (S f) (c :: r) =
+Lemma xlex_text_eq f d c r : (c =? 60) = false -> xlex (S f) (S d) (c :: r) =
   match lex_text None [] (c :: r) with
-  | Some (t, r') => xlcons (XTxt t) (xlex f r')
+  | Some (t, r') => xlcons (XTxt t) (xlex f (S d) r')
   | None => XLErr
   end.
+Proof. intros H. cbn [xlex]. rewrite H. reflexivity. Qed.
+
+Lemma xlex_ws_eq f c r : (c =? 60) = false -> xlex (S f) 0 (c :: r) =
+  let (w, r') := span is_xws (c :: r) in match w with [] => XLErr | _ :: _ => xlex f 0 r' end.
 Proof. intros H. cbn [xlex]. rewrite H. reflexivity. Qed.
 
 (* character data that spells something begins with a character other than less-than *)
@@ -778,31 +848,41 @@ Qed.
 Lemma xws_char c : is_xws c = true -> xml_char c = true.
 Proof. unfold is_xws, xml_char. lia. Qed.
 
-Lemma xlex_complete s ts : xtext s ts -> forall fuel, (length s < fuel)%nat -> xlex fuel s = XLOk ts.
+Lemma xlex_complete d s ts : xtext d s ts -> forall fuel, (length s < fuel)%nat -> xlex fuel d s = XLOk ts.
 Proof.
-  induction 1 as [ | n a ab s ts Hn Ha Hd _ IH | n a ab s ts Hn Ha Hd _ IH | n w s ts Hn Hw _ IH
-                  | v body s ts Hv Hne Hm _ IH | t s ts Hne Hx Hf _ IH | s ts _ IH | t s ts Hx Hf _ IH
-                  | n t s ts Hn Ht Hp _ IH ]; intros fuel Hl.
+  induction 1 as [ d | w s ts Hne Hw Hm _ IH
+                  | d n a ab s ts Hn Ha Hd _ IH | d n a ab s ts Hn Ha Hd _ IH | d n w s ts Hn Hw _ IH
+                  | d v body s ts Hv Hne Hm _ IH | d t s ts Hne Hx Hf _ IH | d s ts _ IH | d t s ts Hx Hf _ IH
+                  | d n t s ts Hn Ht Hp _ IH ]; intros fuel Hl.
   - destruct fuel; [lia | reflexivity].
+  - (* white space outside the document element *)
+    destruct fuel as [|f]; [lia|]. rewrite app_length in Hl.
+    destruct w as [|w0 w]; [congruence|]. pose proof Hw as Hw'. cbn [ws_only forallb] in Hw'.
+    apply andb_true_iff in Hw'. destruct Hw' as [Hw0 _].
+    assert (E60 : (w0 =? 60) = false) by (unfold is_xws in Hw0; lia).
+    assert (Hs : stopsp is_xws s). { destruct s as [|c s']; [exact I|]. cbn in Hm |- *. subst c. reflexivity. }
+    change ((w0 :: w) ++ s) with (w0 :: w ++ s). rewrite (xlex_ws_eq f w0 _ E60).
+    change (w0 :: w ++ s) with ((w0 :: w) ++ s). rewrite (span_app is_xws (w0 :: w) s Hw Hs).
+    apply IH. cbn [length] in Hl. lia.
   - (* start tag *)
     destruct fuel as [|f]; [lia|]. cbn [length] in Hl. rewrite !app_length in Hl. cbn [length] in Hl.
     destruct (name_ok_inv n Hn) as [c0 [n' [En [Hc0 Hn']]]].
     assert (Etxt : 60 :: n ++ ab ++ 62 :: s = 60 :: c0 :: n' ++ ab ++ 62 :: s) by (rewrite En; reflexivity).
-    rewrite Etxt, (xlex_tag_eq f c0 _ Hc0). change (c0 :: n' ++ ab ++ 62 :: s) with ((c0 :: n') ++ ab ++ 62 :: s).
-    rewrite <- En, (lex_name_app n _ Hn (attrs_spell_stop a ab 62 s Ha eq_refl)).
-    pose proof (attrs_spell_len a ab Ha) as La.
-    pose proof (lex_attrs_complete a ab Ha f false EndTag [] s eq_refl ltac:(lia) Hd) as LA.
+    rewrite Etxt, (xlex_tag_eq f d c0 _ Hc0). change (c0 :: n' ++ ab ++ 62 :: s) with ((c0 :: n') ++ ab ++ 62 :: s).
+    rewrite <- En, (lex_name_app n _ Hn (attrs_spell_stop _ a ab 62 s Ha eq_refl)).
+    pose proof (attrs_spell_len _ a ab Ha) as La.
+    pose proof (lex_attrs_complete false a ab Ha f EndTag [] s eq_refl ltac:(lia) Hd) as LA.
     cbn [end_text rev app] in LA. rewrite LA.
     rewrite IH by lia. reflexivity.
   - (* empty-element tag *)
     destruct fuel as [|f]; [lia|]. cbn [length] in Hl. rewrite !app_length in Hl. cbn [length] in Hl.
     destruct (name_ok_inv n Hn) as [c0 [n' [En [Hc0 Hn']]]].
     assert (Etxt : 60 :: n ++ ab ++ 47 :: 62 :: s = 60 :: c0 :: n' ++ ab ++ 47 :: 62 :: s) by (rewrite En; reflexivity).
-    rewrite Etxt, (xlex_tag_eq f c0 _ Hc0).
+    rewrite Etxt, (xlex_tag_eq f d c0 _ Hc0).
     change (c0 :: n' ++ ab ++ 47 :: 62 :: s) with ((c0 :: n') ++ ab ++ 47 :: 62 :: s).
-    rewrite <- En, (lex_name_app n _ Hn (attrs_spell_stop a ab 47 (62 :: s) Ha eq_refl)).
-    pose proof (attrs_spell_len a ab Ha) as La.
-    pose proof (lex_attrs_complete a ab Ha f false EndEmpty [] s eq_refl ltac:(lia) Hd) as LA.
+    rewrite <- En, (lex_name_app n _ Hn (attrs_spell_stop _ a ab 47 (62 :: s) Ha eq_refl)).
+    pose proof (attrs_spell_len _ a ab Ha) as La.
+    pose proof (lex_attrs_complete false a ab Ha f EndEmpty [] s eq_refl ltac:(lia) Hd) as LA.
     cbn [end_text rev app] in LA. rewrite LA.
     rewrite IH by lia. reflexivity.
   - (* end tag *)
@@ -813,7 +893,7 @@ Proof.
     destruct fuel as [|f]; [lia|]. rewrite app_length in Hl.
     destruct (chardata_head v body Hv Hne) as [c [b [Eb Ec]]].
     pose proof (lex_text_complete v body Hv [] s Hm) as L. cbn [rev app] in L.
-    rewrite Eb in *. cbn [app length] in *. rewrite (xlex_text_eq f c _ Ec), L, IH by lia. reflexivity.
+    rewrite Eb in *. cbn [app length] in *. rewrite (xlex_text_eq f d c _ Ec), L, IH by lia. reflexivity.
   - (* CDATA section *)
     destruct fuel as [|f]; [lia|]. rewrite !app_length in Hl. cbn [length] in Hl.
     rewrite xlex_cdata_eq, (scan_until_complete _ t s Hx Hf). destruct t as [|t0 t]; [congruence|].
@@ -905,15 +985,15 @@ Proof.
     apply andb_true_iff in H2. destruct H2 as [H2 _]. apply list_eqb_eq in H2, H3. subst k2 k3. reflexivity.
 Qed.
 
-Lemma split_decl_decl a ab body : attrs_spell a ab -> decl_ok a = true ->
+Lemma split_decl_decl a ab body : declattrs_spell a ab -> decl_ok a = true ->
   split_decl (([60; 63; 120; 109; 108] ++ ab ++ [63; 62]) ++ body) = Some (Some a, body).
 Proof.
   intros Ha Hok. destruct (decl_ok_distinct a Hok) as [Hd Hne].
   unfold split_decl. rewrite <- app_assoc, strip_prefix_app, <- app_assoc.
-  pose proof (lex_attrs_complete a ab Ha (S (length (ab ++ [63; 62] ++ body))) true EndDecl [] body eq_refl) as L.
+  pose proof (lex_attrs_complete true a ab Ha (S (length (ab ++ [63; 62] ++ body))) EndDecl [] body eq_refl) as L.
   cbn [end_text rev app] in L.
   assert (Hl : Nat.lt (length a) (S (length (ab ++ 63 :: 62 :: body)))).
-  { pose proof (attrs_spell_len a ab Ha). rewrite app_length. lia. }
+  { pose proof (attrs_spell_len _ a ab Ha). rewrite app_length. lia. }
   specialize (L Hl Hd).
   destruct Ha as [w _|n v a w1 w2 w3 q vb bd Hne1 Hw1 _ _ _ _ _ _]; [congruence|].
   destruct w1 as [|x w1]; [congruence|]. cbn in Hw1. apply andb_true_iff in Hw1. destruct Hw1 as [Hx _].
@@ -921,14 +1001,18 @@ Proof.
 Qed.
 
 (* a text of the subset does not begin like a declaration *)
-Lemma xtext_after_xml s ts r : xtext s ts -> strip_prefix [60; 63; 120; 109; 108] s = Some r ->
+Lemma xtext_after_xml d0 s ts r : xtext d0 s ts -> strip_prefix [60; 63; 120; 109; 108] s = Some r ->
   exists c r', r = c :: r' /\ is_xws c = false.
 Proof.
   intros H Ep.
-  destruct H as [ | n a ab s ts Hn _ _ _ | n a ab s ts Hn _ _ _ | n w s ts _ _ _
-                 | v body s ts Hv Hne _ _ | t s ts _ _ _ _ | s ts _ | t s ts _ _ _
-                 | n t s ts Hn Ht Hp _ ].
+  destruct H as [ dp | w s ts Hne Hw _ _
+                 | dp n a ab s ts Hn _ _ _ | dp n a ab s ts Hn _ _ _ | dp n w s ts _ _ _
+                 | dp v body s ts Hv Hne _ _ | dp t s ts _ _ _ _ | dp s ts _ | dp t s ts _ _ _
+                 | dp n t s ts Hn Ht Hp _ ].
   - discriminate.
+  - exfalso. destruct w as [|w0 w]; [congruence|]. cbn [ws_only forallb] in Hw. apply andb_true_iff in Hw.
+    destruct Hw as [Hw0 _]. cbn [app strip_prefix] in Ep.
+    destruct (60 =? w0) eqn:E; [unfold is_xws in Hw0; lia | discriminate].
   - exfalso. destruct (name_ok_inv n Hn) as [c0 [n' [-> [Hc0 _]]]]. apply name_start_ge in Hc0.
     cbn [app strip_prefix] in Ep. change (60 =? 60) with true in Ep. cbv iota in Ep.
     destruct (63 =? c0) eqn:E; [lia | discriminate].
@@ -965,11 +1049,11 @@ Proof.
       destruct (is_xws d) eqn:E; [|reflexivity]. apply xws_not_name in E. congruence.
 Qed.
 
-Lemma xtext_no_decl s ts : xtext s ts -> split_decl s = Some (None, s).
+Lemma xtext_no_decl d s ts : xtext d s ts -> split_decl s = Some (None, s).
 Proof.
   intros H. unfold split_decl.
   destruct (strip_prefix [60; 63; 120; 109; 108] s) as [r|] eqn:Ep; [|reflexivity].
-  destruct (xtext_after_xml s ts r H Ep) as [c [r' [-> Hc]]]. rewrite Hc. reflexivity.
+  destruct (xtext_after_xml d s ts r H Ep) as [c [r' [-> Hc]]]. rewrite Hc. reflexivity.
 Qed.
 
 (* ------------------------------------------------------------------ accepted texts = texts of the subset *)
@@ -977,20 +1061,15 @@ Qed.
 (* Every text of the subset is accepted, with the tree it denotes as the result. *)
 Theorem xml_cps_complete : forall s0 x, xrenders (norm_eol s0) x -> xml_parse_cps s0 = XOk x.
 Proof.
-  intros s0 x [decl [body [ts [pre [toks [post [Es [Hdecl [Ht [Em [Hpre [Hpost [Hx Hel]]]]]]]]]]]]].
+  intros s0 x [decl [body [ts [toks [Es [Hdecl [Ht [Em [Hx Hel]]]]]]]]].
   unfold xml_parse_cps. cbv zeta. rewrite Es.
   assert (Sd : exists d, split_decl (decl ++ body) = Some (d, body)).
   { destruct Hdecl as [->|Hd].
-    - exists None. cbn [app]. apply (xtext_no_decl _ _ Ht).
+    - exists None. cbn [app]. apply (xtext_no_decl _ _ _ Ht).
     - destruct Hd as [a ab Ha Hok]. exists (Some a). apply split_decl_decl; assumption. }
   destruct Sd as [d Sd]. rewrite Sd.
-  rewrite (xlex_complete body ts Ht (S (length body)) (Nat.lt_succ_diag_r _)), Em.
-  assert (Ed : drop_ws_txt (pre ++ toks ++ post) = toks ++ post).
-  { destruct Hpre as [->|[w [-> Hw]]].
-    - cbn [app]. destruct Hx; [discriminate Hel | reflexivity | reflexivity].
-    - cbn [app drop_ws_txt]. rewrite Hw. reflexivity. }
-  rewrite Ed, (xbuild_exact x toks post Hx Hel).
-  destruct Hpost as [->|[w [-> Hw]]]; cbn [drop_ws_txt]; [reflexivity | rewrite Hw; reflexivity].
+  rewrite (xlex_complete 0 body ts Ht (S (length body)) (Nat.lt_succ_diag_r _)), Em.
+  pose proof (xbuild_exact x toks [] Hx Hel) as Hb. rewrite app_nil_r in Hb. rewrite Hb. reflexivity.
 Qed.
 
 Theorem xml_cps_exact : forall s0 x, xml_parse_cps s0 = XOk x <-> xrenders (norm_eol s0) x.
@@ -1044,7 +1123,7 @@ Qed.
 Lemma attrs_spell_ok a ab : attrs_spell a ab ->
   forallb (fun kv => name_ok (fst kv) && forallb xml_char (snd kv)) a = true.
 Proof.
-  induction 1 as [w _|n v a w1 w2 w3 q vb body _ _ Hn _ _ _ Hv _ IH]; [reflexivity|].
+  unfold attrs_spell. induction 1 as [w _|n v a w1 w2 w3 q vb body _ _ Hn _ _ _ Hv _ IH]; [reflexivity|].
   cbn [forallb fst snd]. rewrite Hn, (attval_char q v vb Hv), IH. reflexivity.
 Qed.
 
@@ -1055,11 +1134,12 @@ Definition tok_wfb (t : xtok) : bool :=
   | XTxt s => negb (match s with [] => true | _ => false end) && forallb xml_char s
   end.
 
-Lemma xtext_ok s ts : xtext s ts -> forallb tok_wfb ts = true.
+Lemma xtext_ok d s ts : xtext d s ts -> forallb tok_wfb ts = true.
 Proof.
-  induction 1 as [ | n a ab s ts Hn Ha Hd _ IH | n a ab s ts Hn Ha Hd _ IH | n w s ts Hn Hw _ IH
-                  | v body s ts Hv Hne Hm _ IH | t s ts Hne Hx Hf _ IH | s ts _ IH | t s ts Hx Hf _ IH
-                  | n t s ts Hn Ht Hp _ IH ]; try assumption; try reflexivity; cbn [forallb tok_wfb].
+  induction 1 as [ d | w s ts Hne Hw Hm _ IH
+                  | d n a ab s ts Hn Ha Hd _ IH | d n a ab s ts Hn Ha Hd _ IH | d n w s ts Hn Hw _ IH
+                  | d v body s ts Hv Hne Hm _ IH | d t s ts Hne Hx Hf _ IH | d s ts _ IH | d t s ts Hx Hf _ IH
+                  | d n t s ts Hn Ht Hp _ IH ]; try assumption; try reflexivity; cbn [forallb tok_wfb].
   - unfold attrs_ok. rewrite Hn, (attrs_spell_ok a ab Ha), Hd, IH. reflexivity.
   - unfold attrs_ok. rewrite Hn, (attrs_spell_ok a ab Ha), Hd, IH. reflexivity.
   - rewrite Hn, IH. reflexivity.
@@ -1124,12 +1204,9 @@ Qed.
 
 Theorem xrenders_wf s x : xrenders s x -> xwf x.
 Proof.
-  intros [decl [body [ts [pre [toks [post [_ [_ [Ht [Em [_ [_ [Hx Hel]]]]]]]]]]]]]. split; [|exact Hel].
-  pose proof (merge_ok ts (xtext_ok body ts Ht)) as Hok. pose proof (merge_no_adj ts) as Hadj.
-  rewrite Em in Hok, Hadj. rewrite !forallb_app' in Hok.
-  apply andb_true_iff in Hok. destruct Hok as [_ Hok]. apply andb_true_iff in Hok. destruct Hok as [Hok _].
-  destruct (no_adj_app _ _ Hadj) as [_ Hadj']. destruct (no_adj_app _ _ Hadj') as [Hadj'' _].
-  exact (proj1 xtoks_wf x toks Hx Hok Hadj'').
+  intros [decl [body [ts [toks [_ [_ [Ht [Em [Hx Hel]]]]]]]]]. split; [|exact Hel].
+  pose proof (merge_ok ts (xtext_ok 0 body ts Ht)) as Hok. pose proof (merge_no_adj ts) as Hadj.
+  rewrite Em in Hok, Hadj. exact (proj1 xtoks_wf x toks Hx Hok Hadj).
 Qed.
 
 (* whatever the reference parser returns can be printed and is read back from the print *)
@@ -1215,25 +1292,34 @@ Proof.
   destruct t as [|x t]; cbn [app strip_prefix]; [reflexivity|]. destruct (62 =? x); reflexivity.
 Qed.
 
-(* ================================================================== where the subset is wider than XML 1.0 *)
+(* ================================================================== strict where an earlier version was wider than XML 1.0 *)
 
-(* The relation above describes the accepted texts exactly, and at two places it allows more than the recommendation:
-   (1) before and after the root element the recommendation allows white space, comments and processing instructions
-       (Misc); xrenders allows any character data that is white space after the references are expanded, and CDATA
-       sections of white space;
-   (2) the values of the pseudo-attributes of the XML declaration are literal in the recommendation (VersionNum,
-       EncName, yes or no); xmldecl_spells spells them like attribute values, so references are expanded in them.
-   The texts below are accepted, and none of them is well-formed XML 1.0. *)
-Example wider_prolog_reference :      (* &#32;<a/> *)
-  xml_parse_cps [38; 35; 51; 50; 59; 60; 97; 47; 62] = XOk (XElem [97] [] []).
+(* An earlier version of the reference parser was wider than the recommendation at two places: white space before and
+   after the document element could be spelled by character references or CDATA sections (and an empty CDATA section
+   was tolerated there), and references were expanded in the values of the pseudo-attributes of the XML declaration.
+   With the depth index of xtext and the literal values of declval_spells these texts are no texts of the subset, and
+   the parser rejects them. *)
+Example strict_prolog_reference :     (* &#32;<a/> *)
+  xml_parse_cps [38; 35; 51; 50; 59; 60; 97; 47; 62] = XErr.
 Proof. vm_compute. reflexivity. Qed.
-Example wider_prolog_cdata :          (* <![CDATA[ ]]><a/> *)
-  xml_parse_cps [60; 33; 91; 67; 68; 65; 84; 65; 91; 32; 93; 93; 62; 60; 97; 47; 62] = XOk (XElem [97] [] []).
+Example strict_prolog_cdata :         (* <![CDATA[ ]]><a/> *)
+  xml_parse_cps [60; 33; 91; 67; 68; 65; 84; 65; 91; 32; 93; 93; 62; 60; 97; 47; 62] = XErr.
 Proof. vm_compute. reflexivity. Qed.
-Example wider_epilog_cdata :          (* <a/><![CDATA[ ]]> *)
-  xml_parse_cps [60; 97; 47; 62; 60; 33; 91; 67; 68; 65; 84; 65; 91; 32; 93; 93; 62] = XOk (XElem [97] [] []).
+Example strict_epilog_cdata :         (* <a/><![CDATA[ ]]> *)
+  xml_parse_cps [60; 97; 47; 62; 60; 33; 91; 67; 68; 65; 84; 65; 91; 32; 93; 93; 62] = XErr.
 Proof. vm_compute. reflexivity. Qed.
-Example wider_decl_reference :        (* <?xml version='&#49;.0'?><a/> *)
+Example strict_decl_reference :       (* <?xml version='&#49;.0'?><a/> *)
   xml_parse_cps [60; 63; 120; 109; 108; 32; 118; 101; 114; 115; 105; 111; 110; 61; 39; 38; 35; 52; 57; 59; 46; 48; 39;
-                 63; 62; 60; 97; 47; 62] = XOk (XElem [97] [] []).
+                 63; 62; 60; 97; 47; 62] = XErr.
+Proof. vm_compute. reflexivity. Qed.
+Example strict_prolog_cdata_empty :   (* <![CDATA[]]><a/> *)
+  xml_parse_cps [60; 33; 91; 67; 68; 65; 84; 65; 91; 93; 93; 62; 60; 97; 47; 62] = XErr.
+Proof. vm_compute. reflexivity. Qed.
+
+(* what Misc does allow: literal white space, a comment and a processing instruction, before and after the root:
+     <?xml version='1.0'?>[SP][LF]<!-- --><?p x?>[TAB]<a/>[LF]<!----><?p?>[SP][LF] *)
+Example strict_misc_accepted :
+  xml_parse_cps [60; 63; 120; 109; 108; 32; 118; 101; 114; 115; 105; 111; 110; 61; 39; 49; 46; 48; 39; 63; 62;
+                 32; 10; 60; 33; 45; 45; 32; 45; 45; 62; 60; 63; 112; 32; 120; 63; 62; 9; 60; 97; 47; 62; 10;
+                 60; 33; 45; 45; 45; 45; 62; 60; 63; 112; 63; 62; 32; 10] = XOk (XElem [97] [] []).
 Proof. vm_compute. reflexivity. Qed.
